@@ -179,6 +179,11 @@ func c13(r *core.Report) {
 	ruleHubErrNonNil(r, h, core.NewNonNil(p), "C13-CLOSE-REASON", []*types.Var{h.tellErr, h.askErr},
 		[]string{"TellHub.Receive", "TellHub.Deliver", "TellHub.checkClosed", "AskHub.ServeAsk", "AskHub.Deliver", "AskHub.checkClosed", "Queue.Receive"})
 
+	// ---- C13-QUEUE-SLOT (shared with C14-FREELIST): a queue slot handed back before the callback returned is
+	// refilled by the next Deliver while the callback still reads it: one message reaches two callbacks, another none
+	r.Rule("C13-QUEUE-SLOT", "the bounded queue returns a slot to the freelist only after the receive callback returned, zeroed, and rebuilds a recycled payload from length 0", 3)
+	ruleFreelist(r, h, "C13-QUEUE-SLOT")
+
 	r.Rule("C13-RENDEZVOUS", "rendezvous channels are unbuffered, never closed and received from only by Receive/ServeAsk", 5)
 	for _, d := range []struct {
 		fld     *types.Var
@@ -337,12 +342,15 @@ func ruleCtxExternal(r *core.Report, ruleID string, roots []*ssa.Function) {
 // ruleCommit: shape of TellHub.Deliver / AskHub.Deliver (shared by C13 and C14:
 // the deliverer may reuse its buffer only because Deliver returns success
 // strictly after the callback finished).
-func ruleCommit(r *core.Report, h *hubSlots, ruleID string) {
+func ruleCommit(r *core.Report, h *hubSlots, ruleID string, only ...string) {
 	p := r.P
 	for _, d := range []struct {
 		name      string
 		rdv, done *types.Var
 	}{{"TellHub.Deliver", h.tellDelivers, h.drDone}, {"AskHub.Deliver", h.askReqs, h.srDone}} {
+		if len(only) > 0 && !containsStr(only, d.name) {
+			continue
+		}
 		fn := h.fns[d.name]
 		var sels []*ssa.Select
 		for _, s := range core.AllSelects(fn) {
